@@ -982,4 +982,58 @@ example : ∀ re, (findallTop 20 fresh exTailLR "//*/name/sub".toList re).res =
       ("//[1][0]/name/sub".toList, .str ['c'])]) := by
   decide +kernel
 
+
+/-- **Both inclusions for the fan-out reference**: the pairs listed are exactly the nodes at the positions
+`… name`, any number of list indexes, `sub` — every such node, at any depth, and nothing else -/
+theorem C19_descendant_tail_lists_positions (t : Val) (name sub : Str) (hk : KeysOkV t) (p : Pos) (v : Val) :
+    (p, v) ∈ tailOfL sub (descV name t) ↔
+      ∃ (q : Pos) (is : List Nat), p = q ++ [.key name] ++ is.map Seg.idx ++ [.key sub] ∧ getAt t p = some v :=
+  fatl_tail_mem_getAt name sub t hk p v
+
+/-- the statement in the form "found iff it is the node at a position `…/name[i]…[j]/sub`" (dict root) -/
+theorem C19_descendant_tail_lists_iff (cls : Cls) (kvs : List (Str × Val)) (name sub : Str)
+    (hn : PlainKey name) (hs : PlainKey sub)
+    (hk : KeysOkV (.dict cls kvs)) (hc : ContOkV (.dict cls kvs)) (re : Bool := true) :
+    ∃ n, ∀ fuel ≥ n, ∃ f,
+      (findallTop fuel fresh (.dict cls kvs) (['/', '/', '*', '/'] ++ name ++ ['/'] ++ sub) re).res = .ok (some f) ∧
+      ∀ xp v, (xp, v) ∈ f ↔
+        ∃ (q : Pos) (is : List Nat),
+          getAt (.dict cls kvs) (q ++ [.key name] ++ is.map Seg.idx ++ [.key sub]) = some v ∧
+          xp = slash ++ renderPos (q ++ [.key name] ++ is.map Seg.idx ++ [.key sub]) := by
+  obtain ⟨n, hN⟩ := C19_descendant_tail_lists cls kvs name sub hn hs hk hc re
+  refine ⟨n, fun fuel hf => ⟨_, hN fuel hf, fun xp v => ?_⟩⟩
+  simp only [List.mem_map, Prod.mk.injEq]
+  constructor
+  · rintro ⟨⟨p, w⟩, hm, rfl, rfl⟩
+    obtain ⟨q, is, rfl, hg⟩ := (C19_descendant_tail_lists_positions _ name sub hk p w).1 hm
+    exact ⟨q, is, hg, rfl⟩
+  · rintro ⟨q, is, hg, rfl⟩
+    exact ⟨(_, v), (C19_descendant_tail_lists_positions _ name sub hk _ v).2 ⟨q, is, rfl, hg⟩, rfl, rfl⟩
+
+/-- the same on a list root -/
+theorem C19_descendant_tail_lists_iff_list_root (cls : Cls) (xs : List Val) (name sub : Str)
+    (hn : PlainKey name) (hs : PlainKey sub)
+    (hk : KeysOkV (.list cls xs)) (hc : ContOkV (.list cls xs)) (re : Bool := true) :
+    ∃ n, ∀ fuel ≥ n, ∃ f,
+      (findallTop fuel fresh (.list cls xs) (['/', '/', '*', '/'] ++ name ++ ['/'] ++ sub) re).res = .ok (some f) ∧
+      ∀ xp v, (xp, v) ∈ f ↔
+        ∃ (q : Pos) (is : List Nat),
+          getAt (.list cls xs) (q ++ [.key name] ++ is.map Seg.idx ++ [.key sub]) = some v ∧
+          xp = '/' :: '/' :: renderPos (q ++ [.key name] ++ is.map Seg.idx ++ [.key sub]) := by
+  obtain ⟨n, hN⟩ := C19_descendant_tail_lists_list_root cls xs name sub hn hs hk hc re
+  refine ⟨n, fun fuel hf => ⟨_, hN fuel hf, fun xp v => ?_⟩⟩
+  simp only [List.mem_map, Prod.mk.injEq]
+  constructor
+  · rintro ⟨⟨p, w⟩, hm, rfl, rfl⟩
+    obtain ⟨q, is, rfl, hg⟩ := (C19_descendant_tail_lists_positions _ name sub hk p w).1 hm
+    exact ⟨q, is, hg, rfl⟩
+  · rintro ⟨q, is, hg, rfl⟩
+    exact ⟨(_, v), (C19_descendant_tail_lists_positions _ name sub hk _ v).2 ⟨q, is, rfl, hg⟩, rfl, rfl⟩
+
+-- non-vacuity of the membership forms: the position `x/name[2][0]/sub` of `exTailL` holds `'b'`
+example : getAt exTailL ([.key ['x']] ++ [.key ['n', 'a', 'm', 'e']] ++ [2, 0].map Seg.idx ++ [.key ['s', 'u', 'b']])
+    = some (.str ['b']) := by decide
+example : getAt exTailLR ([.idx 0] ++ [.key ['n', 'a', 'm', 'e']] ++ [1, 0].map Seg.idx ++ [.key ['s', 'u', 'b']])
+    = some (.str ['b']) := by decide
+
 end N0.C19
